@@ -28,6 +28,9 @@ struct Tl {
     /// about *when* the call resolves presuppose prompt polling and are not judged then, but
     /// "the inner result if the inner call finished before the deadline" still is
     late_ticks: usize,
+    /// the inner call never waits: every poll uses up the task's cooperative budget (see
+    /// `InnerState::busy`), so the caller's task is runnable all the time while time passes
+    busy: bool,
 }
 
 struct X {
@@ -92,7 +95,7 @@ impl Scenario for Tl {
         "C06"
     }
     fn label(&self) -> String {
-        format!("timelimiter cancel={} per_request={} callers={} select_seed={}{}", self.cancel, self.per_request, self.callers, self.seed, if self.flag_first { " builder_order=flag_first" } else if self.scale != 1 { " x101" } else if self.late_ticks > 0 { " late-polls" } else { "" })
+        format!("timelimiter cancel={} per_request={} callers={} select_seed={}{}", self.cancel, self.per_request, self.callers, self.seed, if self.flag_first { " builder_order=flag_first" } else if self.scale != 1 { " x101" } else if self.busy { " busy-inner" } else if self.late_ticks > 0 { " late-polls" } else { "" })
     }
     fn callers(&self) -> usize {
         self.callers
@@ -107,6 +110,7 @@ impl Scenario for Tl {
         self.late_ticks
     }
     fn init(&self, w: &mut World) -> X {
+        w.inner.lock().unwrap().busy = self.busy;
         let inner = GatedInner::new(w.inner.clone());
         let start: Box<dyn FnMut(Req) -> CallerFut> = if self.per_request {
             fn per_req(r: &Req) -> Duration {
@@ -193,6 +197,11 @@ impl Scenario for Tl {
             let avail_out = call.and_then(|k| k.gate);
             match &cl.phase {
                 Phase::Live => {
+                    // whatever the executor and the inner call do in between: a poll at or
+                    // after the deadline finds the deadline reached
+                    if now >= deadline && matches!(a, Action::Poll(p) if *p as usize == c) {
+                        out.push(Viol::new("pending_although_polled_after_deadline", site, format!("caller {c}: first polled {t0}, deadline {deadline}, polled at {now} and still unresolved")));
+                    }
                     if let (Some(tr), true) = (avail, self.late_ticks == 0) {
                         if tr < deadline && !w.needs_poll(c) && cl.last_poll_ms.map_or(true, |lp| lp < tr || cl.wakes_at_last_poll_end < cl.wake_count()) && !cl.flag_set() {
                             out.push(Viol::new("not_woken_on_result", site, format!("caller {c}: inner result available at {tr} < deadline {deadline}, but the caller was not woken")));
@@ -382,14 +391,21 @@ fn configs(tier: Tier) -> Vec<Tl> {
             for seed in seeds {
                 // thorough: three callers under the first select! seed
                 let callers = if tier == Tier::Thorough && seed == 1 { 3 } else { 2 };
-                v.push(Tl { flag_first: false, cancel, per_request, callers, max_ticks: tier.pick(4, 6), max_drops: 1, seed, scale: 1, late_ticks: 0 });
+                v.push(Tl { flag_first: false, cancel, per_request, callers, max_ticks: tier.pick(4, 6), max_drops: 1, seed, scale: 1, late_ticks: 0, busy: false });
             }
             // the same with the builder calls in the other order
-            v.push(Tl { flag_first: true, cancel, per_request, callers: 2, max_ticks: tier.pick(4, 5), max_drops: 1, seed: 1, scale: 1, late_ticks: 0 });
+            v.push(Tl { flag_first: true, cancel, per_request, callers: 2, max_ticks: tier.pick(4, 5), max_drops: 1, seed: 1, scale: 1, late_ticks: 0, busy: false });
             // timeouts in the seconds range (2.02 s / 3.03 s on a 1.01 s grid)
-            v.push(Tl { flag_first: false, cancel, per_request, callers: 2, max_ticks: tier.pick(4, 5), max_drops: 1, seed: 1, scale: 101, late_ticks: 0 });
+            v.push(Tl { flag_first: false, cancel, per_request, callers: 2, max_ticks: tier.pick(4, 5), max_drops: 1, seed: 1, scale: 101, late_ticks: 0, busy: false });
+            // an inner call that uses up the task's cooperative budget in every poll: the task
+            // is always runnable, time passes between its polls.  (Cancelling mode only: the
+            // other mode runs the inner call in a task of its own, and under the paused clock
+            // virtual time only moves when the runtime has nothing left to run.)
+            if cancel {
+                v.push(Tl { flag_first: false, cancel, per_request, callers: tier.pick(1, 2), max_ticks: tier.pick(3, 4), max_drops: 0, seed: 1, scale: 1, late_ticks: tier.pick(3, 4), busy: true });
+            }
             // a late executor
-            v.push(Tl { flag_first: false, cancel, per_request, callers: 2, max_ticks: tier.pick(4, 5), max_drops: 0, seed: 1, scale: 1, late_ticks: 2 });
+            v.push(Tl { flag_first: false, cancel, per_request, callers: 2, max_ticks: tier.pick(4, 5), max_drops: 0, seed: 1, scale: 1, late_ticks: 2, busy: false });
         }
     }
     v
